@@ -88,7 +88,7 @@ class C12(CheckBase):
                            '(mk_copy, update_from_other_container)'], 'stub': []}
     assumptions = ['single task; no fault kinds (history half of the technique only)',
                    'copy.copy of a container is shallow by definition of the language and therefore not an operation of the model']
-    expected_probes = ['inplace_append', 'inplace_append_nested', 'construct', 'parse', 'mk_copy', 'update_from_other', 'deepcopy', 'write', 'serialise',
+    expected_probes = ['inplace_append', 'inplace_append_nested', 'parse_tree_of_live_instance', 'construct', 'parse', 'mk_copy', 'update_from_other', 'deepcopy', 'write', 'serialise',
                        'absent_member_parsed']
 
     def budget(self, tier):
@@ -166,9 +166,16 @@ class C12(CheckBase):
                 elif k == 'parse':
                     ctx.probe('parse')
                     parses += 1
-                    src = V.gen_instance(cls, rng) if kind == 'type' else self._gen_container(cls, kind, rng)
+                    from_live = bool(same) and rng.random() < 0.35
+                    if from_live:
+                        # parse the XML tree generated from a live instance (the tree is used in-process, not re-read
+                        # from bytes): the parsed instance and its source are independent of each other
+                        src = same[op['pick'] % len(same)][0]
+                        ctx.probe('parse_tree_of_live_instance')
+                    else:
+                        src = V.gen_instance(cls, rng) if kind == 'type' else self._gen_container(cls, kind, rng)
                     ab = ctx.plan.get('absent')
-                    if ab and hasattr(src, ab) and rng.random() < 0.7:
+                    if not from_live and ab and hasattr(src, ab) and rng.random() < 0.7:
                         try:
                             setattr(src, ab, None)  # optional member absent in the XML
                         except Exception:  # noqa: BLE001
@@ -244,6 +251,7 @@ class C12(CheckBase):
                                     if hasattr(sub, 'sorted_container_properties'):
                                         collect(sub, path + [n], depth + 1, out)
                     allc = []
+                    elem_changed = False
                     collect(entry[0], [], 0, allc)
                     nested = [c_ for c_ in allc if len(c_[3]) > 1]
                     cands = nested if (nested and rng.random() < 0.6) else allc
@@ -257,7 +265,13 @@ class C12(CheckBase):
                     if len(ppath) > 1:
                         ctx.probe('inplace_append_nested')
                     if isinstance(prop, xs.ExtensionNodeProperty):
-                        lst.append(etree.Element(etree.QName('urn:dsim:ext', f'e{op["id"]}')))
+                        if lst and rng.random() < 0.5:
+                            # change an extension element the instance already holds (an lxml element is mutable)
+                            lst[rng.randrange(len(lst))].set('changed-by', f'op{op["id"]}')
+                            ctx.probe('extension_element_changed')
+                            elem_changed = True
+                        else:
+                            lst.append(etree.Element(etree.QName('urn:dsim:ext', f'e{op["id"]}')))
                     elif isinstance(prop, xs.SubElementListProperty) and not isinstance(prop, xs.SubElementStringListProperty):
                         lst.append(V.gen_instance(prop.value_class, rng, 1))
                     elif isinstance(prop, xs.DecimalListAttributeProperty):
@@ -270,6 +284,8 @@ class C12(CheckBase):
                     entry[1] = canon.canon(entry[0])
                     target = (entry[0], entry[4])
                     shape = f'inplace-append{"-nested" if len(ppath) > 1 else ""}:{type(prop).__name__}'
+                    if elem_changed:
+                        shape = 'via-list-element'  # a write through an element of a list valued member
                     where = f'inplace-append:{entry[2]}:{pname}'
                 elif k == 'serialise' and live:
                     ctx.probe('serialise')
